@@ -7,6 +7,9 @@
 //!     instruction through the reference crate and compares program id, data and metas.
 //!   * `mint|token <owner> <image>`  puts the image into a native `AccountInfo`, runs the framework's
 //!     view (`validate_accounts` + `data()`), answers accept/reject + fields; oracle = `Pack::unpack`.
+//!   * `vmint|vtoken <owner> <image> <args>`  runs the `validate_mint` / `validate_token` validation ids
+//!     (`validate()?; validate_mint(arg)`), answers `ok` / `err:<class>`; oracle = the same predicate on the
+//!     fields the reference unpacker reports.
 //!   * `ata <wallet> <mint>`  runs `AssociatedToken::find_address_with_bump`; answers the PDA preimage
 //!     (seed list + program) that reproduces the framework's address and bump under the real
 //!     `find_program_address`; oracle = the reference derivation.
@@ -37,6 +40,8 @@ pub fn exec_line(line: &str) -> Exec {
         ["ix", rest @ ..] => ixs::exec_ix(rest),
         ["mint", owner, image] => views::exec_mint(owner, image),
         ["token", owner, image] => views::exec_token(owner, image),
+        ["vmint", owner, image, d, au, fr] => views::exec_vmint(owner, image, d, au, fr),
+        ["vtoken", owner, image, mint, own] => views::exec_vtoken(owner, image, mint, own),
         ["ata", wallet, mint] => views::exec_ata(wallet, mint),
         _ => Exec::bad(),
     });
@@ -80,7 +85,7 @@ fn main() {
     let mut rec = Recorder::new(
         "ix: the reference builder produced an instruction and it was compared with the framework's \
          (program id, data, every meta); image: the image carries a `Some` option or takes a reject \
-         branch in the reference or the framework; ata: the PDA preimage of the framework's address was identified",
+         branch in the reference or the framework; validation: the reference accepts the image and the predicate was compared; ata: the PDA preimage of the framework's address was identified",
     );
     let cases: Vec<Vec<String>> = match args.replay_cases() {
         Some(c) => c,
